@@ -37,6 +37,7 @@ func main() {
 		genQuote(w, r, a.Tier)
 		genLiterals(w, r, a.Tier)
 		genNumerals(w, r, a.Tier)
+		genBases(w, r, a.Tier)
 		genFloats(w, r, a.Tier)
 		genDates(w, r, a.Tier)
 		genContext(w, r, a.Tier)
